@@ -125,6 +125,10 @@ pub fn digest_bytes(b: &[u8]) -> u64 {
     u64::from_le_bytes(blake3::hash(b).as_bytes()[..8].try_into().unwrap())
 }
 
+pub fn pack_info_string(i: &jbk::reader::PackInfo) -> String {
+    pack_info_str(i)
+}
+
 fn pack_info_str(i: &jbk::reader::PackInfo) -> String {
     format!(
         "uuid={} size={} id={} kind={:?} group={} free={} check@{:?} loc={:?}",
